@@ -229,4 +229,149 @@ func srcShell(f *facts, o *out) {
 		}
 	}
 	def("shell_escaped_bytes", "list N", "["+strings.Join(escaped, "; ")+"]", okEsc, "[36; 96; 34; 92]")
+
+	// --- the callers of renderValue: which pretend / showSecrets they pass -------------------------------------------
+	//   env_get.go  writeValue:  get.env.renderValue(out, env, path, format, true, showSecrets)
+	//   env_open.go RunE:        envcmd.renderValue(envcmd.esc.stdout, env, path, format, false, true)
+	const envGet = "cmd/esc/cli/env_get.go"
+	renderCalls := func(fd *ast.FuncDecl) []*ast.CallExpr {
+		var out []*ast.CallExpr
+		if fd == nil {
+			return out
+		}
+		ast.Inspect(fd.Body, func(n ast.Node) bool {
+			if c, ok := isCall(n, "*", "renderValue"); ok && len(c.Args) == 6 {
+				out = append(out, c)
+			}
+			return true
+		})
+		return out
+	}
+	boolLit := func(e ast.Expr) (bool, bool) {
+		id, ok := e.(*ast.Ident)
+		if !ok || (id.Name != "true" && id.Name != "false") {
+			return false, false
+		}
+		return id.Name == "true", true
+	}
+	coqBool := func(b bool) string {
+		if b {
+			return "true"
+		}
+		return "false"
+	}
+	getPretend, getFlag, okGet := false, false, false
+	if fd := f.funcDecl(envGet, "writeValue"); fd != nil {
+		if cs := renderCalls(fd); len(cs) == 1 {
+			// the last parameter of writeValue is the flag; it must be what the command passes on
+			flagParam := ""
+			if ps := fd.Type.Params.List; len(ps) > 0 && len(ps[len(ps)-1].Names) == 1 {
+				flagParam = ps[len(ps)-1].Names[0].Name
+			}
+			p, okP := boolLit(cs[0].Args[4])
+			id, okId := cs[0].Args[5].(*ast.Ident)
+			if okP && okId && flagParam != "" && id.Name == flagParam {
+				getPretend, getFlag, okGet = p, true, true
+			}
+		}
+	}
+	// ... and the flag variable of the command reaches writeValue unchanged: showValue(ctx, ref, path, value, showSecrets)
+	if okGet {
+		okGet = false
+		if fd := f.funcDecl(envGet, "showValue"); fd != nil {
+			ast.Inspect(fd.Body, func(n ast.Node) bool {
+				if c, ok := isCall(n, "*", "writeValue"); ok && len(c.Args) == 6 {
+					ps := fd.Type.Params.List
+					if id, ok := c.Args[5].(*ast.Ident); ok && len(ps) > 0 && len(ps[len(ps)-1].Names) == 1 &&
+						id.Name == ps[len(ps)-1].Names[0].Name {
+						okGet = true
+					}
+				}
+				return true
+			})
+		}
+	}
+	def("get_render_pretend", "bool", coqBool(getPretend), okGet, "false")
+	def("get_render_show_is_the_flag", "bool", coqBool(getFlag), okGet, "false")
+
+	openPretend, openShow, okOpen := false, false, false
+	if fd := f.funcDecl(envOpen, "newEnvOpenCmd"); fd != nil {
+		if cs := renderCalls(fd); len(cs) == 1 {
+			p, okP := boolLit(cs[0].Args[4])
+			sh, okS := boolLit(cs[0].Args[5])
+			if okP && okS {
+				openPretend, openShow, okOpen = p, sh, true
+			}
+		}
+	}
+	def("open_render_pretend", "bool", coqBool(openPretend), okOpen, "true")
+	def("open_render_show", "bool", coqBool(openShow), okOpen, "false")
+
+	// --- renderValue hands its arguments to prepareEnvironment: PrepareOptions{Pretend: pretend, Quote: true,
+	//     [Shell: true,] Redact: !showSecrets} in the "shell" / "dotenv" cases ------------------------------------------
+	optsOK := func(format string, wantShell bool) bool {
+		fd := f.funcDecl(envOpen, "renderValue")
+		if fd == nil || len(fd.Type.Params.List) < 2 {
+			return false
+		}
+		found, good := 0, false
+		ast.Inspect(fd.Body, func(n ast.Node) bool {
+			cc, ok := n.(*ast.CaseClause)
+			if !ok || len(cc.List) != 1 {
+				return true
+			}
+			if s, ok := stringLit(cc.List[0]); !ok || s != format {
+				return true
+			}
+			for _, st := range cc.Body {
+				ast.Inspect(st, func(m ast.Node) bool {
+					cl, ok := m.(*ast.CompositeLit)
+					if !ok {
+						return true
+					}
+					if id, ok := cl.Type.(*ast.Ident); !ok || id.Name != "PrepareOptions" {
+						return true
+					}
+					found++
+					fields := map[string]string{}
+					for _, e := range cl.Elts {
+						kv, ok := e.(*ast.KeyValueExpr)
+						if !ok {
+							return true
+						}
+						k, _ := kv.Key.(*ast.Ident)
+						if k == nil {
+							return true
+						}
+						switch v := kv.Value.(type) {
+						case *ast.Ident:
+							fields[k.Name] = v.Name
+						case *ast.UnaryExpr:
+							if id, ok := v.X.(*ast.Ident); ok && v.Op == token.NOT {
+								fields[k.Name] = "!" + id.Name
+							}
+						default:
+							fields[k.Name] = "?"
+						}
+					}
+					want := map[string]string{"Pretend": "pretend", "Quote": "true", "Redact": "!showSecrets"}
+					if wantShell {
+						want["Shell"] = "true"
+					}
+					good = len(fields) == len(want)
+					for k, v := range want {
+						if fields[k] != v {
+							good = false
+						}
+					}
+					return true
+				})
+			}
+			return false
+		})
+		return found == 1 && good
+	}
+	okOptsShell, okOptsDotenv := optsOK("shell", true), optsOK("dotenv", false)
+	def("render_shell_options_ok", "bool", "true", okOptsShell, "false")
+	def("render_dotenv_options_ok", "bool", "true", okOptsDotenv, "false")
 }
